@@ -56,6 +56,9 @@ FxSetSp(n) == [fx EXCEPT !.sp = n]
 
 (* ---- autoGrowingCallFrameStack -------------------------------------------- *)
 AuIsEmpty == au.si = 0 /\ au.ss = 0
+\* since fix 5a3ef35 the Go stacks hold 8 more frames (one more segment slot) than transcribed here, usable only while a
+\* message handler runs (AddReserve); with no handler running - the only mode these wrappers drive - the limits are the ones
+\* below, and Push refuses anything beyond them.  The reserve itself is exercised by C05's overflow family.
 AuIsFull == au.si = Len(au.segs) - 1 /\ au.ss >= FramesPerSegment      \* as repaired by fix d965ea3 (the comparison with Len(au.segs) was never true)
 AuSp == au.ss + au.si * FramesPerSegment
 AuPushPanics == au.ss >= FramesPerSegment /\ ~(au.si < Len(au.segs) - 1)
